@@ -70,8 +70,38 @@ pub fn c07_configs(thorough: bool) -> Vec<EpCfg> {
             }
         }
     }
+    v.extend(large_id_configs("c07", "c07", thorough));
     v
 }
+/// exchanges with large identifier values in both directions (the application reserves its own with
+/// register_packet_id): 256 and the type maximum - the session alphabets otherwise use 1..3
+pub fn large_id_configs(prefix: &str, group: &'static str, thorough: bool) -> Vec<EpCfg> {
+    let mut v = vec![];
+    for role in [RoleK::Client, RoleK::Server] {
+        for ver in VERS {
+            if !thorough && !(role == RoleK::Client && ver == Ver::V5) && !(role == RoleK::Server && ver == Ver::V4) {
+                continue;
+            }
+            let mut c = EpCfg::new(&cfg_name(prefix, role, Some(ver), "large-ids"), role, Some(ver));
+            c.auto_pub = false;
+            c.window = 2;
+            c.alph = session_alph(ver == Ver::V5, 1);
+            c.alph.pub_q = vec![1, 2];
+            c.alph.pub_ids = vec![256, 65535];
+            c.alph.peer_ack_ids = vec![1, 256, 65535];
+            c.alph.peer_pub_q = vec![2];
+            c.alph.peer_ids = vec![256, 65535];
+            c.alph.peer_dup = true;
+            c.alph.peer_acks.push(AckKind::Pubrel);
+            c.alph.defer_pubrel = true;
+            c.alph.erase = true;
+            c.groups = vec![group];
+            v.push(c);
+        }
+    }
+    v
+}
+
 pub fn c07(rep: &mut Report) {
     run_all(rep, c07_configs(rep.thorough()), 200_000, 10.0);
     for f in ["c07.first-delivery", "c07.duplicate-suppressed", "c07.pubrel-releases", "c07.local-error-pubrec", "c07.refused-by-validation", "session.resumed", "session.clean-start", "closed"] {
@@ -121,6 +151,7 @@ pub fn c08_configs(thorough: bool) -> Vec<EpCfg> {
             }
         }
     }
+    v.extend(large_id_configs("c08", "c08", thorough));
     // raw id-management calls for every id value incl. 0 and the type maximum
     for role in [RoleK::Client, RoleK::Server] {
         for ver in VERS {
@@ -515,9 +546,13 @@ pub fn c15_configs(thorough: bool) -> Vec<EpCfg> {
     let mut v = vec![];
     for role in ROLES {
         for ver in VERS {
-            for ka in [0u16, 1] {
+            for ka in [0u16, 1, 65535] {
                 for to in [0u64, 5] {
                     if !thorough && role == RoleK::Any && (ka == 0 || to == 0) {
+                        continue;
+                    }
+                    // the largest keep alive (98 302 500 ms receive timeout): one configuration per role / version
+                    if ka == 65535 && (to != 0 || role == RoleK::Any) {
                         continue;
                     }
                     let mut c = EpCfg::new(&cfg_name("c15", role, Some(ver), &format!("ka={ka} pingresp-timeout={to}")), role, Some(ver));
